@@ -1090,6 +1090,45 @@ def generate_near_tie(i, tie='prng'):
             'script': script, 'pre': pre, 'decimal': True, 'profile': 'near_tie'}
 
 
+def generate_dead_end(seed, tie='prng'):
+    """Two or three stations fed from one buffer (or straight from the source) through gates or plain junctions; one
+    station is taken out of the line for a while (`set_upstream([])`) and put back later, so its gate stays connected
+    in front and leads nowhere: parts offered to it are refused and go the other way."""
+    rng = random.Random(core.stable_int('deadend', seed))
+    items = [{'id': 'S1', 'kind': 'source', 'ct': rng.choice([0.5, 1, 1]), 'budget': None, 'values': [1, 2],
+              'qualities': [1]}]
+    sender = 'S1'
+    if rng.random() < 0.7:
+        items.append({'id': 'B2', 'kind': 'buffer', 'up': ['S1'], 'cap': rng.choice([2, 4, None]),
+                      'delay': rng.choice([0, 0, 0.5])})
+        sender = 'B2'
+    n = rng.choice([2, 2, 3])
+    stations = []
+    for j in range(n):
+        pred = rng.choice([{'t': 'always'}, {'t': 'always'}, {'t': 'seq_mod', 'm': 3, 'r': [0, 1]},
+                           {'t': 'value_ge', 'th': 2}])
+        if j == 0:
+            pred = {'t': 'always'}          # (every part has somewhere to go)
+        kind = 'gate' if rng.random() < 0.8 else 'flow'
+        g = {'id': f'G{j}', 'kind': kind, 'up': [sender]}
+        if kind == 'gate':
+            g['pred'] = pred
+        items.append(g)
+        items.append({'id': f'P{j}', 'kind': rng.choice(['processor', 'handler']), 'up': [f'G{j}'],
+                      'ct': rng.choice([1.5, 2, 2.5, 3]), 'res': None})
+        stations.append(f'P{j}')
+    items.append({'id': 'K9', 'kind': 'sink', 'up': stations, 'ct': 0, 'collect': True})
+    total = float(rng.choice([24, 32, 40]))
+    victim = rng.choice(stations[1:])
+    t1 = rng.randrange(8, int(total * 4)) / 8.0
+    t2 = t1 + rng.choice([2.5, 4, 8])
+    script = [{'t': t1, 'prio': rng.choice([5, 10.5]), 'op': 'detach', 'target': victim}]
+    if t2 < total - 1:
+        script.append({'t': t2, 'prio': 5, 'op': 'reattach', 'target': victim})
+    return {'resources': {}, 'items': items, 'horizon': [total], 'tie': tie, 'seed': seed, 'max_events': 20000,
+            'script': script, 'profile': 'dead_end'}
+
+
 def generate_fanout(seed, tie='prng', decimal=False):
     """Fan-out models for the idle-longest rule: a sender feeding 2-4 parallel plain single-slot
     devices (handlers, resource-free processors, sinks) with different cycle times, some of them behind plain
